@@ -125,8 +125,8 @@ pub fn plan(property: &str) -> Option<Plan> {
             ],
             "exploration",
         ),
-        "C02" => (vec![stage("crash", "C02", 6_000, 60_000)], "fault_enumeration"),
-        "C03" => (vec![stage("crash", "C03", 6_000, 60_000)], "fault_enumeration"),
+        "C02" => (vec![stage("crash", "C02", 6_000, 60_000), stage("fault", "C09", 2_500, 30_000)], "fault_enumeration"),
+        "C03" => (vec![stage("crash", "C03", 6_000, 60_000), stage("crash", "C04", 500, 8_000)], "fault_enumeration"),
         "C04" => (vec![stage("crash", "C04", 2_000, 30_000), stage("bigrec", "C04", 16, 200)], "fault_enumeration"),
         _ => return None,
     };
